@@ -12,6 +12,7 @@ import (
 	"encoding/pem"
 	"errors"
 	"fmt"
+	"github.com/google/gce-tcb-verifier/cmd/output"
 	"io"
 	"math/big"
 	"os"
@@ -324,18 +325,19 @@ type e1Snap struct {
 }
 
 type e1Inst struct {
-	km, ca  string // km: memkm|localkm ; ca: memca|gcsmem|gcslocal
-	signer  *nonprod.Signer
-	mgr     keys.ManagerInterface
-	mem     *memca.CertificateAuthority
-	store   storagei.Client
-	mock    *tstorage.Mock
-	dir     string // scratch root (key dir and bucket root live below it)
-	f       *faultCtl
-	rng     *Rng
-	rec     *[]string
-	onW     func(obj string, data []byte)
-	lastGcs *gcsca.CertificateAuthority
+	keepGoing bool   // run the commands with --keep_going (C11: same writes expected on fault-free runs)
+	km, ca    string // km: memkm|localkm ; ca: memca|gcsmem|gcslocal
+	signer    *nonprod.Signer
+	mgr       keys.ManagerInterface
+	mem       *memca.CertificateAuthority
+	store     storagei.Client
+	mock      *tstorage.Mock
+	dir       string // scratch root (key dir and bucket root live below it)
+	f         *faultCtl
+	rng       *Rng
+	rec       *[]string
+	onW       func(obj string, data []byte)
+	lastGcs   *gcsca.CertificateAuthority
 	// expectKey is the key version the next rotation is expected to certify (C11 bookkeeping)
 	expectKey string
 }
@@ -446,6 +448,11 @@ func (in *e1Inst) ctx(overwrite bool, script map[int]int) context.Context {
 		Random:  in.rng,
 		Manager: &faultKM{inner: in.mgr, f: in.f},
 	}
+	if in.keepGoing {
+		// --keep_going: recoverable errors are tolerated; a fault-free run must write exactly what it writes without the flag
+		return keys.NewContext(output.NewContext(context.Background(), &output.Options{Quiet: true, Overwrite: overwrite, KeepGoing: true,
+			Out: io.Discard, Err: io.Discard}), c)
+	}
 	return keys.NewContext(quietCtx(overwrite), c)
 }
 
@@ -549,7 +556,9 @@ func parsePEMCert(b []byte) *x509.Certificate {
 }
 
 // renderState prints the durable state canonically:
-//   live=<sorted key names> man=<root>|<primary>|<kvn>path,...> objs=<path~kind~subject~chains,...>
+//
+//	live=<sorted key names> man=<root>|<primary>|<kvn>path,...> objs=<path~kind~subject~chains,...>
+//
 // kind: d = parses as DER certificate, p = parses as PEM certificate, x = neither;
 // subject = name of the live key whose public key the certificate carries ("-" if none);
 // chains = 1 iff the certificate's signature verifies under the stored root certificate.
